@@ -78,11 +78,12 @@ func main() {
 	seed := flag.Uint64("seed", 1, "")
 	n := flag.Int("n", 100, "")
 	big := flag.Int("big", 6, "number of programs on memories above 2 GiB")
-	mode := flag.String("mode", "e2e", "e2e: programs on both engines | amode: lowerToAddressMode called directly | elide: the frontend's known-safe-bounds cache observed while it lowers generated functions")
+	mode := flag.String("mode", "e2e", "e2e: programs on both engines | amode: lowerToAddressMode called directly | elide: the frontend's known-safe-bounds cache observed while it lowers generated functions | enc: the amd64 operand encoder called directly")
 	threads := flag.Bool("threads", true, "guard stream: enable the threads proposal (atomics)")
 	from := flag.Int("from", 0, "guard child: first program")
 	to := flag.Int("to", 0, "guard child: one past the last program")
 	par := flag.Int("par", 6, "guard stream: children in parallel")
+	nseq := flag.Int("nseq", 60, "enc stream: instruction lists through the real Encode")
 	watchdog := flag.Int("watchdog", 30, "guard stream: seconds without output before a child is killed")
 	flag.Parse()
 	switch *mode {
@@ -97,6 +98,9 @@ func main() {
 		return
 	case "elide":
 		mainElide(*seed, *n)
+		return
+	case "enc": // operand encoding: the real encodeEncMem / encodeEncEnc / Encode (enc.go)
+		mainEnc(*seed, *n, *nseq)
 		return
 	}
 	rng := c.NewRng(*seed)
